@@ -374,6 +374,37 @@ def r8_comparisons(ctx):
               "numeric operands are converted to a common unit before they are compared", detail=None)
 
 
+def r9_stateless_atoms(ctx):
+    """The value of an expression is a function of its text and the environment: the DIP solver objects keep no state
+    that one atom's evaluation leaves for the next (only the constructor binds fields)."""
+    MUT = {"append", "extend", "insert", "pop", "remove", "clear", "update", "setdefault", "popitem", "add", "discard"}
+    n = 0
+    for f, cname in (("logical_solver.py", "LogicalSolver"), ("numerical_solver.py", "NumericalSolver"), ("template_solver.py", "TemplateSolver"),
+                     ("function_solver.py", "FunctionSolver")):
+        rel = "src/scinumtools/dip/solvers/" + f
+        try:
+            c = ctx.repo.cls(rel, cname)
+        except AnalysisError:
+            continue
+        for mname, fn in methods(c).items():
+            if mname in ("__init__", "__enter__", "__exit__"):
+                continue
+            n += 1
+            ctx.functions_analysed.add(f"{rel}::{cname}.{mname}")
+            writes = []
+            for x in ast.walk(fn):
+                if isinstance(x, (ast.Attribute, ast.Subscript)) and isinstance(x.ctx, (ast.Store, ast.Del)):
+                    d = norm(x)
+                    if d.startswith("self.") and not d.startswith("self.env"):
+                        writes.append(d)
+                if isinstance(x, ast.Call) and isinstance(x.func, ast.Attribute) and x.func.attr in MUT and norm(x.func.value).startswith("self.") \
+                        and not norm(x.func.value).startswith("self.env"):
+                    writes.append(norm(x)[:60])
+            ctx.check(not writes, rel, f"{cname}.{mname}", "evaluation leaves no state on the solver object (an atom's value does not depend on atoms evaluated before)",
+                      detail=writes or None)
+    ctx.floor("solver methods scanned for state", n, 8)
+
+
 RULES = [
     ("C18.R1", "DIP solver configurations: maximal munch, handler exhaustiveness, default step order, blank-delimited symbols, documented priorities and function names", r1_configurations),
     ("C18.R2", "sign rewriting of the DIP copies = sign algebra (sibling decision tables with quantities as atoms)", r2_sign_siblings),
@@ -382,5 +413,6 @@ RULES = [
     ("C18.R5", "no unit scope is re-entered from its own body", r5_no_nested_scope),
     ("C18.R6", "template formatting and brace/consumption discipline", r6_templates),
     ("C18.R7", "custom unit factors are recorded in base units by both registration paths", r7_custom_unit_factor),
+    ("C18.R9", "solver objects are stateless between atoms and expressions: no method other than the constructor writes a field of the solver", r9_stateless_atoms),
     ("C18.R8", "comparison semantics: == isclose(rtol=1e-6); != its negation; < > strict in (left, right) order; <= >= strict-or-tolerant; common unit first", r8_comparisons),
 ]
